@@ -39,10 +39,12 @@ for d in sorted(glob.glob(os.path.join(HERE, 'seeded', '*'))):
                 'breaks the property (nodes are never shared once aliases '
                 'are expanded); result from the tree it was written for. '
                 + hist)
+    if m.get('frozen'):
+        hist = hist.rstrip() + ' (' + m['frozen'] + ')'
     rows.append('| %s | %s | %s | %s | %s |' % (
         m['seed'], m['breaks_property'], title,
         '<br>'.join(caught) or '**not caught**',
-        (hist[:330] + ('...' if len(hist) > 330 else '')) or (
+        (hist[:620] + ('...' if len(hist) > 620 else '')) or (
             'also run, silent: ' + ', '.join(missed) if missed else '')))
 table = ('| seed | breaks | change (first line of the agent\'s notes) | caught '
          'by quick check (first mechanism keys) | history |\n'
